@@ -113,7 +113,7 @@ fn is_canonical_unbounded(a: &Aff, n: usize) -> bool {
 
 pub fn run_case(ctx: &Ctx, case: u64, ev: &mut Ev) {
     let mut rng = Rng::derive(ctx.seed, "C15", case);
-    rng.big = ctx.tier == crate::Tier::Thorough && rng.chance(0.2);
+    rng.big = crate::draw_big(ctx, &mut rng);
     let n = 1 + rng.below(if rng.big { 6 } else { 4 });
     let (p, near_miss) = system(&mut rng, n);
     let m = p.mat.len();
